@@ -509,3 +509,87 @@ def exhaustive_flag_states(tier):
                     p.add('bp %s' % r2); p.add('obs %s' % r2); p.add('obs %s' % a)
                     p.tag('exhaustive-flag-states'); progs.append(p)
     return progs
+
+
+def exhaustive_backward(tier):
+    """EVERY differentiable operation applied once to EVERY small shape (rank <= 2, sizes <= 3; quick) or
+    (rank <= 3, sizes <= 3; thorough), with every valid argument in that scope (every dim, every valid range list,
+    every ordered pair of shapes for the two-operand operations), back-propagated under a non-uniform upstream
+    weighting; the gradients of all operands are compared."""
+    import itertools
+    progs = []
+    shapes = list(all_shapes(2, 3)) if tier == 'quick' else list(all_shapes(3, 3))
+    def vals(n, off=0.0):
+        return [0.6 + off + 0.35 * j for j in range(n)]
+    def wts(n):
+        return [(-1.5, 0.5, 2.0, 1.0, -0.75, 3.0)[j % 6] + 0.125 * (j // 6) for j in range(n)]
+    def case(name, build):
+        p = Prog(name)
+        out = build(p)
+        if out is None:
+            return
+        y, yshape, leaves = out
+        if yshape is None:
+            # shape of the result is not predicted here: back-propagate the result itself
+            p.add('obs %s' % y); p.add('bp %s' % y)
+        else:
+            g = p.tensor(yshape, wts(prod(yshape)))
+            z = p.bind('mul %s %s' % (y, g)); p.add('bp %s' % z)
+        for l in leaves:
+            p.add('obs %s' % l)
+        p.tag('exhaustive-backward'); progs.append(p)
+    UN = ['scale $A %s' % f2b(2.5), 'scale $A %s' % f2b(0.0), 'pow $A %s' % f2b(2.0), 'pow $A %s' % f2b(0.0), 'pow $A %s' % f2b(-1.0),
+          'pow $A %s' % f2b(0.5), 'exp $A', 'log $A', 'sin $A', 'cos $A', 'tan $A', 'sinh $A', 'cosh $A', 'tanh $A']
+    for si, sh in enumerate(shapes):
+        n = prod(sh); r = len(sh)
+        for ui, u in enumerate(UN):
+            case('xb_u%d_%d' % (si, ui), lambda p, u=u: (lambda a: (p.bind(u.replace('$A', a)), sh, [a]))(p.tensor(sh, vals(n), tracked=True)))
+        # shape operations: results of unknown shape are back-propagated directly
+        ops = ['flatten $A %d' % d for d in range(r)] + ['unsqueeze $A %d' % d for d in range(r + 1)]
+        ops += ['squeeze $A %d' % d for d in range(r) if sh[d] == 1]
+        ops += ['%s $A %d' % (al, d) for d in range(r) for al in ('sumalong', 'maxalong', 'minalong', 'avgalong', 'meanalong', 'varalong', 'stdalong')]
+        if r >= 2: ops.append('transpose $A')
+        for tg in itertools.product([1, 2, 3, 4, 6, 9], repeat=2):
+            if tg[0] * tg[1] == n: ops.append('reshape $A %d,%d' % tg)
+        ops.append('reshape $A %d' % n)
+        for lead in ([], [2], [1, 3]):
+            for mask in itertools.product([0, 1], repeat=r):
+                tgt = lead + [d if (m == 0 or d != 1) else 3 for d, m in zip(sh, mask)]
+                if prod(tgt) <= 200: ops.append('broadcast $A %s' % (ints(tgt) if tgt else '-'))
+        for ln in range(0, r + 1):
+            per = []
+            for j in range(ln):
+                per.append([(a, b) for a in range(sh[j]) for b in range(a + 1, sh[j] + 1)] + [(0, 0)])
+            for rl in itertools.product(*per):
+                ops.append('slice $A %s' % (ranges(list(rl)) if ln else '-'))
+        for oi, o in enumerate(dict.fromkeys(ops)):
+            # distinct values so that Max/Min have a unique position; plus one program with ties
+            case('xb_s%d_%d' % (si, oi), lambda p, o=o: (lambda a: (p.bind(o.replace('$A', a)), None, [a]))(p.tensor(sh, vals(n), tracked=True)))
+            if o.startswith(('maxalong', 'minalong')):
+                case('xb_st%d_%d' % (si, oi), lambda p, o=o: (lambda a: (p.bind(o.replace('$A', a)), None, [a]))(p.tensor(sh, [1.0] * n, tracked=True)))
+    BINOPS = ['add', 'sub', 'mul', 'div', 'dot', 'matmul', 'elmax', 'elmin']
+    for ai, sa in enumerate(shapes):
+        for bi, sb in enumerate(shapes):
+            for o in BINOPS:
+                for tr in ((True, True), (True, False), (False, True)):
+                    def build(p, sa=sa, sb=sb, o=o, tr=tr):
+                        a = p.tensor(sa, vals(prod(sa)), tracked=tr[0])
+                        b = p.tensor(sb, vals(prod(sb), 0.17), tracked=tr[1])
+                        return (p.bind('%s %s %s' % (o, a, b)), None, [a, b])
+                    case('xb_b%d_%d_%s_%d%d' % (ai, bi, o, tr[0], tr[1]), build)
+            for d in range(0, max(len(sa), 1)):
+                def build(p, sa=sa, sb=sb, d=d):
+                    a = p.tensor(sa, vals(prod(sa)), tracked=True)
+                    b = p.tensor(sb, vals(prod(sb), 0.17), tracked=(d % 2 == 0))
+                    return (p.bind('concat %s,%s,%s %d' % (a, b, a, d)), None, [a, b])
+                case('xb_c%d_%d_%d' % (ai, bi, d), build)
+            # Patch of a block of b's shape into a: every offset that fits
+            if len(sa) == len(sb) and all(x <= y for x, y in zip(sb, sa)) and sa:
+                for offs in itertools.product(*[range(0, y - x + 1) for x, y in zip(sb, sa)]):
+                    rl = [(o_, o_ + x) for o_, x in zip(offs, sb)]
+                    def build(p, sa=sa, sb=sb, rl=rl):
+                        a = p.tensor(sa, vals(prod(sa)), tracked=True)
+                        b = p.tensor(sb, vals(prod(sb), 0.17), tracked=True)
+                        return (p.bind('patch %s %s %s' % (a, ranges(rl), b)), sa, [a, b])
+                    case('xb_p%d_%d_%s' % (ai, bi, '_'.join(map(str, offs))), build)
+    return progs
